@@ -1158,8 +1158,14 @@ class _Buffer:
         return self.nbytes
 
 
+class _BytesIOSubclass(_io.BytesIO):
+    """What type() reports for a harness-made SymStream (concretely a LoggedBytesIO): a proper subclass of io.BytesIO."""
+
+
 class SymStream:
     """Seekable binary stream over symbolic content; logs every operation."""
+
+    exact = False
 
     def __init__(self, data=(), pos=0):
         self.data = data if _real_type(data) is SBytes else SBytes(tobytes_items(data))
@@ -1234,6 +1240,28 @@ class SymStream:
 
     def getvalue(self):
         return _mkbytes(self.data.items)
+
+    def truncate(self, size=None):
+        size = self.pos if size is None else concretize(size)
+        if size < 0:
+            raise ValueError(f"negative size value {size}")
+        if size < _real_len(self.data):
+            self.data = SBytes(self.data.items[:size])
+        self.log.append(("truncate", size))
+        return size
+
+    def readinto(self, b):
+        out = self.data[self.pos:self.pos + _real_len(b)]
+        n = _real_len(out)
+        if _real_type(b) is SByteArray:
+            b.items[:n] = out.items
+        elif all(_real_type(i) is int for i in out.items):
+            b[:n] = bytes(out.items)
+        else:
+            raise Inconclusive("readinto() a native buffer with symbolic bytes")
+        self.log.append(("read", self.pos, _real_len(b), n))
+        self.pos += n
+        return n
 
     def seekable(self):
         return True
@@ -1586,9 +1614,17 @@ def dispatch(f, /, *a, **k):
         return f(*a, **k)
     if f is _BytesIO:
         ENGINE.models_used.add("io.BytesIO -> SymStream")
-        return SymStream(a[0]) if a else SymStream()
+        st = SymStream(a[0]) if a else SymStream()
+        st.exact = True
+        return st
+    if f is type and _real_len(a) == 1 and not k and _real_type(a[0]) is SymStream:
+        # type(stream): exactly io.BytesIO for a stream the code built itself, a subclass of it for the harness's own stream
+        # (whose concrete counterpart is LoggedBytesIO)
+        return _io.BytesIO if a[0].exact else _BytesIOSubclass
     if f is bytearray and not a:
         return SByteArray()
+    if f is bytearray and _real_len(a) == 1 and not k and _real_type(a[0]) is int and 0 <= a[0] <= 4096:
+        return SByteArray([0] * a[0])  # a scratch buffer that readinto() may fill with symbolic bytes
     if f is builtins.len and _real_len(a) == 1:
         lm = getattr(_real_type(a[0]), "__len__", None)
         if _real_type(lm) is _types.FunctionType and _real_type(a[0]) not in PROXY_TYPES:
@@ -1764,6 +1800,11 @@ def dispatch(f, /, *a, **k):
             return model_unpack(slf, SBytes(tobytes_items(a[0])[off:off + slf.size]))
         if name == "pack":
             return model_pack(slf, *a)
+        if name == "iter_unpack":
+            items = tobytes_items(a[0])
+            if slf.size == 0 or _real_len(items) % slf.size:
+                raise _struct_mod.error("iterative unpacking requires a buffer of a multiple of %d bytes" % slf.size)
+            return iter([model_unpack(slf, SBytes(items[i:i + slf.size])) for i in range(0, _real_len(items), slf.size)])
     if _real_isinstance(slf, (bytes, bytearray)) and name == "join":
         return join_model(slf, a[0])
     if _real_type(slf) is str and name == "join":
